@@ -2,7 +2,6 @@ package main
 
 import (
 	"fmt"
-	"strings"
 
 	"golang.org/x/tools/go/ssa"
 )
@@ -42,6 +41,7 @@ type dryFrame struct {
 	siteN     map[string]int
 	exitsLen  int
 	cacheLen  int
+	nonLocal  map[string]bool
 }
 
 func (e *Enc) beginDry(fr *Frame) *dryFrame {
@@ -61,6 +61,8 @@ func (e *Enc) beginDry(fr *Frame) *dryFrame {
 		d.blockOut[k] = v
 	}
 	e.writeLog = map[string]bool{}
+	d.nonLocal = e.writeNonLocal
+	e.writeNonLocal = map[string]bool{}
 	e.dry++
 	return d
 }
@@ -71,6 +73,14 @@ func (e *Enc) endDry(fr *Frame, d *dryFrame) map[string]bool {
 	e.writeLog = d.writeLog
 	for k := range written {
 		e.writeLog[k] = true
+	}
+	e.dryNonLocal = e.writeNonLocal
+	e.writeNonLocal = d.nonLocal
+	for k := range e.dryNonLocal {
+		if e.writeNonLocal == nil {
+			e.writeNonLocal = map[string]bool{}
+		}
+		e.writeNonLocal[k] = true
 	}
 	for _, c := range e.dryCache[d.cacheLen:] {
 		delete(c.st.heap, c.key)
@@ -114,8 +124,6 @@ func (e *Enc) enterLoop(fr *Frame, li *loopInfo, st *State) *State {
 			Clause: inv.Src, Reach: st.reach, Goal: g, Pos: e.posStr(li.pos)})
 	}
 	// 2. dry run of the body to learn what it writes
-	li.frame, li.oldW = fr, map[string]bool{}
-	e.dryLoops = append(e.dryLoops, li)
 	d := e.beginDry(fr)
 	{
 		hst := st.clone()
@@ -135,26 +143,20 @@ func (e *Enc) enterLoop(fr *Frame, li *loopInfo, st *State) *State {
 		e.encodeBlocks(fr, ordered, hst, li.body)
 	}
 	written := e.endDry(fr, d)
-	e.dryLoops = e.dryLoops[:len(e.dryLoops)-1]
-	// writes of this loop's body are writes of every enclosing loop body that is being dry-run; "old" ones stay old,
-	// fresh ones are re-judged by the enclosing loops' own dry runs (noteLoopWrite runs for every active loop)
 	// 3. havoc
 	h := st.clone()
+	nonLocal := e.dryNonLocal
 	for _, k := range sortedKeys(written) {
-		if srt, ok := e.heapSort[k]; ok {
-			pre, hadPre := st.heap[k]
-			if !hadPre {
-				pre = e.heapGet(st, k, srt)
-			}
-			h.heap[k] = e.fresh(k, srt)
+		if _, ok := e.heapSort[k]; ok {
+			before := e.heapGet(st, k, e.heapSort[k])
+			h.heap[k] = e.fresh(k, e.heapSort[k])
 			e.writeLog[k] = true
-			// loop frame rule: a reference-indexed heap component that the body writes only inside objects it
-			// allocates itself is unchanged, across any number of iterations, for every object that existed at loop entry
-			if !li.oldW[k] && !written["*"] && (strings.HasPrefix(k, "F|") || strings.HasPrefix(k, "S|") || strings.HasPrefix(k, "P|")) {
-				ks, _ := splitArraySort(srt)
-				if ks == "Int" {
-					e.assert("(forall ((r Int)) (! (=> (<= r " + st.alloc + ") (= (select " + h.heap[k] + " r) (select " + pre + " r))) :pattern ((select " + h.heap[k] + " r))))")
-				}
+			// every write of the body to this component goes through an object allocated by this function: objects
+			// that existed when the function started are untouched by any number of iterations
+			if !nonLocal[k] && !written["*"] && refIndexedKey(k) {
+				e.assert("(forall ((r Int)) (! (=> (<= r alloc@0) (= (select " + h.heap[k] + " r) (select " + before + " r))) :pattern ((select " + h.heap[k] + " r))))")
+			} else if nonLocal[k] {
+				e.noteNonLocal(k)
 			}
 		}
 	}
@@ -240,15 +242,17 @@ func (e *Enc) backEdgeObligations(fr *Frame, b *ssa.BasicBlock, st *State, si in
 			}
 		}
 	}
+	var phis []*ssa.Phi
 	for _, in := range s.Instrs {
 		phi, ok := in.(*ssa.Phi)
 		if !ok {
 			break
 		}
 		saved[phi] = fr.vals[phi]
+		phis = append(phis, phi)
 	}
 	newVals := map[*ssa.Phi]*Val{}
-	for phi := range saved {
+	for _, phi := range phis {
 		newVals[phi] = e.val(fr, phi.Edges[predIdx])
 	}
 	for phi, v := range newVals {
@@ -273,4 +277,21 @@ func (e *Enc) backEdgeObligations(fr *Frame, b *ssa.BasicBlock, st *State, si in
 	for phi, v := range saved {
 		fr.vals[phi] = v
 	}
+}
+
+// refIndexedKey: heap components indexed by object reference at the first level.
+func refIndexedKey(k string) bool {
+	for _, p := range []string{"F|", "P|", "S|", "MD|", "MV|"} {
+		if len(k) >= len(p) && k[:len(p)] == p {
+			return true
+		}
+	}
+	return false
+}
+
+func (e *Enc) noteNonLocal(k string) {
+	if e.writeNonLocal == nil {
+		e.writeNonLocal = map[string]bool{}
+	}
+	e.writeNonLocal[k] = true
 }
